@@ -511,7 +511,14 @@ impl Interp {
 	}
 
 	/// thunk of field `name` looked up in layers [0, upto) of `o` (self stays `o`)
-	fn field_thunk(&self, o: &Rc<Obj>, upto: usize, name: &str) -> Option<Th> {
+	///
+	/// Sharing: a field value is shared per *access path* — all reads through the object itself (`upto` = number of
+	/// layers), all explicit `super.f` reads from one layer (`upto` = that layer), and the implicit read of `f +:` from
+	/// one layer are each one thunk.  Nothing more is promised (reads from different layers, or an explicit `super.f`
+	/// next to `f +:` in the same layer, may evaluate the inherited field again), so nothing more is shared here: the
+	/// evaluation counts of the reference are upper bounds for an implementation.
+	fn field_thunk(&self, o: &Rc<Obj>, upto: usize, name: &str, implicit: bool) -> Option<Th> {
+		let slot = upto * 2 + usize::from(implicit);
 		let mut i = upto;
 		while i > 0 {
 			i -= 1;
@@ -522,7 +529,7 @@ impl Interp {
 				continue;
 			}
 			let Some(fi) = self.layer_defines(&o.layers[i], name) else { continue };
-			let key: (Rc<str>, usize) = (Rc::from(name), i);
+			let key: (Rc<str>, usize) = (Rc::from(name), slot);
 			if let Some(t) = o.cache.borrow().get(&key) {
 				return Some(t.clone());
 			}
@@ -553,7 +560,7 @@ impl Interp {
 				Thunk::native(move |it: &Interp| {
 					let here = it.eval(&env, &body);
 					if it.has_field(&o2, i, &name2, true) {
-						let sup = it.field_thunk(&o2, i, &name2).ok_or_else(|| E::NoField(name2.to_string()))?;
+						let sup = it.field_thunk(&o2, i, &name2, true).ok_or_else(|| E::NoField(name2.to_string()))?;
 						let a = it.force(&sup)?;
 						let b = here?;
 						it.add(a, b)
@@ -575,7 +582,7 @@ impl Interp {
 		if !self.has_field(o, o.layers.len(), name, true) {
 			return Ok(None);
 		}
-		match self.field_thunk(o, o.layers.len(), name) {
+		match self.field_thunk(o, o.layers.len(), name, false) {
 			Some(t) => Ok(Some(self.force(&t)?)),
 			None => Ok(None),
 		}
@@ -660,7 +667,7 @@ impl Interp {
 				if !self.has_field(o, *upto, &name, true) {
 					return Err(E::NoField(name.to_string()));
 				}
-				match self.field_thunk(o, *upto, &name) {
+				match self.field_thunk(o, *upto, &name, false) {
 					Some(t) => self.force(&t)?,
 					None => return Err(E::NoField(name.to_string())),
 				}
